@@ -47,6 +47,12 @@ if __name__ == "__main__":
             traceback.print_exc()
             print("HARNESS-ERROR the check itself crashed (see the traceback above): no verdict", file=sys.stderr)
             rc = 2
+    try:
+        from dsim import cli as _cli
+
+        _cli.cleanup_scratch()
+    except BaseException:  # noqa: BLE001
+        pass
     sys.stdout.flush()
     sys.stderr.flush()
     os._exit(rc if isinstance(rc, int) else 0)
